@@ -90,11 +90,45 @@ def comparator(P, R):
 
 
 def scan(P, R):
-    f = P.need_fn('iauth_class_foreach_rule')
-    call = [s for s in f.calls() if P.call_slot(s) and P.call_slot(s).startswith('param:')]
+    f = P.fn('iauth_class_foreach_rule')
+    call = [s for s in f.calls() if P.call_slot(s) and P.call_slot(s).startswith('param:')] if f is not None else []
+    direct = False
+    if not call:
+        # the scan written out where the rules are applied: a loop calling the matcher itself
+        m = P.need_fn('iauth_class_rule_check')
+        for s0 in P.callers(m, may=False):
+            if s0.bid in s0.fn.reach([e.dst for e in s0.fn.out[s0.bid]]):
+                f, call, direct = s0.fn, [s0], True
     if not call:
         raise AnalysisBroken('rule scan does not call its rule function')
     s = call[0]
+    if direct:
+        idx = None
+        a0 = s.ev['args'][0]
+        for x in walk(a0):
+            if x.get('k') == 'idx' and on_path(x, 'vec'):
+                vs = vars_in(x['index'])
+                idx = sorted(vs)[0] if vs else None
+        R.ob('C11.GRD.1', idx is not None, s, 'the scan applies the matcher to vec[%s]' % idx, key='scan-shape')
+        # after a hit no further rule is tried: the call is not reachable from the edge on which it returned non-zero
+        hits = []
+        for bid in f.reachable_blocks():
+            for e in f.out[bid]:
+                r = rules.edge_rel(e)
+                if r and isinstance(r[0], dict) and r[0].get('k') == 'callref' and r[0].get('ev') == s.ev['id'] and const_of(r[2]) == 0 and r[1] == '!=':
+                    hits.append(e)
+                if r and is_var(r[0]) and const_of(r[2]) == 0 and r[1] == '!=' and any((t.ev.get('rhs') or {}).get('ev') == s.ev['id'] and is_var(t.ev.get('lhs'), r[0]['name']) for t in f.stores()):
+                    hits.append(e)
+        R.ob('C11.GRD.1', bool(hits) and all(s.bid not in f.reach([e.dst]) for e in hits), s, 'a rule is tried only while no earlier rule has hit', key='stop-at-first')
+        gs = f.guards(s.bid)
+        R.ob('C11.GRD.1', any(is_var(g[0], idx) and g[1] == '<' and on_path(g[2], 'used') for g in gs), s, 'the scan stays below the number of rules', key='scan-bound')
+        inits = [t for t in f.sites() if (t.ev['k'] == 'store' and is_var(t.ev.get('lhs'), idx) and t.ev.get('op') == '=') or (t.ev['k'] == 'decl' and t.ev.get('var') == idx and t.ev.get('init') is not None)]
+        steps = [t for t in f.stores() if is_var(t.ev.get('lhs'), idx) and t.ev.get('op') not in ('=',)]
+        R.ob('C11.GRD.1', bool(inits) and all(const_of(t.ev.get('rhs') if t.ev['k'] == 'store' else t.ev.get('init')) == 0 for t in inits) and len(steps) == 1 and steps[0].ev.get('op') == '++',
+             steps[0] if steps else f, 'the scan starts at rule 0 and ascends one rule at a time', key='scan-order')
+        R.ob('C11.GRD.1', root_var(a0) is not None and root_var(a0)['name'] == 'conf', s, 'the scan runs over the compiled rule vector', key='scan-vector', nontrivial=False)
+        R.floor('C11.GRD.1', 5)
+        return
     idx = None
     a0 = s.ev['args'][0]
     for x in walk(a0):
@@ -120,7 +154,10 @@ def scan(P, R):
 
 def matcher(P, R):
     m = P.need_fn('iauth_class_rule_check')
-    rule, reqp = m.params[0], m.params[2]
+    rule = next((p['name'] for p in m.param_info if 'iauth_class_rule' in p.get('t', '')), None)
+    reqp = next((p['name'] for p in m.param_info if 'iauth_request' in p.get('t', '')), None)
+    if rule is None or reqp is None:
+        raise AnalysisBroken('the rule matcher no longer takes a rule and a request')
     store = [s for s in m.calls() if s.ev.get('callee') in ('strlcpy', 'strncpy', 'strcpy') and on_path(s.ev['args'][0], 'class', core.REQ_REC)]
     if not store:
         raise AnalysisBroken('rule matcher does not store a class')
@@ -282,6 +319,15 @@ def wiring(P, R, H):
     R.ob('C11.WIRE.1', len(asg) == 1, asg[0] if asg else H, 'the class module installs its assignment function as the pre_registered handler', key='slot')
     for f in asg:
         sc = [s for s in f.calls('iauth_class_foreach_rule')]
+        if not sc:
+            # the scan written out in the assignment function: the matcher is called directly with the client
+            dc = [s for s in f.calls('iauth_class_rule_check')]
+            if dc:
+                reqi = [j for j, p in enumerate(P.need_fn('iauth_class_rule_check').param_info) if 'iauth_request' in p.get('t', '')]
+                okg = any(is_field(g[0].get('base', {}), 'class', core.REQ_REC) and g[1] == '==' and const_of(g[2]) == 0 for g in f.guards(dc[0].bid) if isinstance(g[0], dict) and g[0].get('k') == 'idx')
+                R.ob('C11.WIRE.1', okg, dc[0], 'rules are applied only when no class was assigned before', key='pre-assigned')
+                R.ob('C11.WIRE.1', bool(reqi) and is_var(dc[0].ev['args'][reqi[0]], f.params[0]), dc[0], 'the scan is run with the matcher on the client being accepted', key='scan-call')
+                continue
         ok = bool(sc) and any(is_field(g[0].get('base', {}), 'class', core.REQ_REC) and g[1] == '==' and const_of(g[2]) == 0 for g in f.guards(sc[0].bid) if isinstance(g[0], dict) and g[0].get('k') == 'idx')
         R.ob('C11.WIRE.1', ok, sc[0] if sc else f, 'rules are applied only when no class was assigned before', key='pre-assigned')
         okm = bool(sc) and sc[0].ev['args'][0].get('k') == 'func' and sc[0].ev['args'][0]['name'] == 'iauth_class_rule_check' and is_var(sc[0].ev['args'][1], f.params[0])
